@@ -35,7 +35,10 @@ def is_bifurcate(topology: Topology, *, exclude_root: bool = True) -> bool:
 
     root = children[-1]
     for k, v in children.items():
-        if len(v) > 1 and (not exclude_root or k in root):
+        if k == -1 or (exclude_root and k in root):
+            continue
+
+        if len(v) > 2:
             return False
 
     return True
